@@ -17,7 +17,7 @@ from .common import Check, drive, tok, untok
 PROP = "C10"
 
 
-def make_frame(r, n, dup):
+def make_frame(r, n, dup, tail_missing=0):
     from spatialpandas import GeoDataFrame
     if dup:
         base = [[r.randint(0, 20), r.randint(0, 20)] for _ in range(max(1, n // 4))]
@@ -26,21 +26,23 @@ def make_frame(r, n, dup):
         pts = [[r.randint(0, 64), r.randint(0, 64)] for _ in range(n)]
     if n > 2 and r.random() < 0.5:
         pts[r.randrange(n)] = None
+    for i in range(n - tail_missing, n):
+        pts[i] = None                          # a whole trailing input partition without any located geometry
     lines = [[p[0], p[1], p[0] + 1, p[1] + 2] if p else [0, 0, 1, 1] for p in pts]
     return GeoDataFrame({"a": list(range(n)), "geometry": geo.make_array("point", pts, "float64"), "ln": geo.make_array("line", lines, "float64")})
 
 
-def run_case(chk, r, root, n, in_parts, npart, mode, comp, prior, dup, tag):
+def run_case(chk, r, root, n, in_parts, npart, mode, comp, prior, dup, tag, tail_missing=0):
     import dask
     import dask.dataframe as dd
     from spatialpandas.io import read_parquet_dask
-    df = make_frame(r, n, dup)
+    df = make_frame(r, n, dup, tail_missing)
     work = os.path.join(root, f"case{r.randrange(10**9)}")
     os.makedirs(work)
     path = os.path.join(work, "out.parq")
     fs = packfs.WrapFS()
     rep = dict(api="pack_partitions_to_parquet", n=n, input_partitions=in_parts, npartitions=npart, tempdir=mode, compression=comp,
-               prior_dataset=prior, duplicates=dup, points=geo.to_elements(df["geometry"].array))
+               prior_dataset=prior, duplicates=dup, all_missing_last_input_partition=bool(tail_missing), points=geo.to_elements(df["geometry"].array))
     try:
         if prior:
             pn = {"smaller": max(1, npart - 1), "larger": npart + 3}[prior]
@@ -173,6 +175,10 @@ def run_cases(chk, tier):
                         chk.sample(dict(n=n, input_partitions=in_parts, npartitions=npart, tempdir=mode, compression=comp, prior_dataset=prior,
                                         duplicates=dup), cap=6)
                     k += 1
+        # an input partition that holds only missing geometries (its bounds are NaN): the curve must still span the located rows
+        for mode in ("inside", "outside-uuid"):
+            run_case(chk, r, root, 12, 2, 3, mode, "snappy", None, False, "all-missing-input-partition", tail_missing=6)
+            run_case(chk, r, root, 9, 3, 4, mode, None, None, False, "all-missing-input-partition", tail_missing=3)
     finally:
         shutil.rmtree(root, ignore_errors=True)
 
